@@ -19,6 +19,7 @@ import (
 	"github.com/csgura/fp/future"
 	"github.com/csgura/fp/hlist"
 	"github.com/csgura/fp/iterator"
+	"github.com/csgura/fp/monoid"
 	. "verifharness/common"
 )
 
@@ -435,6 +436,20 @@ func (w *world) buildFam(s *Sx) (Fut, bool) {
 			xs = append(xs, x.Int())
 		}
 		return future.Map(future.TraverseSlice(xs, w.kf(a[1]), ctx(w.mode)...), func(xs []any) any { return xs }), true
+	case "traverseFunc": // (traverseFunc KF x…): future.TraverseFunc(far)(iterator)
+		xs := []any{}
+		for _, x := range a[2:] {
+			xs = append(xs, x.Int())
+		}
+		return future.Map(future.TraverseFunc(w.kf(a[1]), ctx(w.mode)...)(iterator.FromSeq(xs)), func(it fp.Iterator[any]) any { return []any(it.ToSeq()) }), true
+	case "monoidFut": // (monoidFut FN A B): monoid.Future(m).Combine(A, B) with m.Combine = FN
+		fn := w.fnN(a[1], -1)
+		m := monoid.New(func() any { Emit("mzero"); return 0 }, func(x, y any) any { return fn(x, y) })
+		return monoid.Future(m).Combine(w.h(a[2]), w.h(a[3])), true
+	case "monoidFutEmpty": // (monoidFutEmpty V): monoid.Future(m).Empty() with m.Empty() = V
+		v := a[1].Int()
+		m := monoid.New(func() any { return v }, func(x, y any) any { Emit("mcombine"); return x })
+		return monoid.Future(m).Empty(), true
 	case "sequenceIt": // (sequenceIt H…)
 		return future.Map(future.SequenceIterator(iterator.FromSeq(w.handles(a[1:])), ctx(w.mode)...), func(it fp.Iterator[any]) any { return []any(it.ToSeq()) }), true
 	case "flatMapTraverseSeq": // (flatMapTraverseSeq H KF)
@@ -582,6 +597,9 @@ func containsInt(xs []int, x int) bool {
 	return false
 }
 
+var famCtr = map[string]int{}
+var handCtr, sliceCtr int
+
 func pickArity(r *Rng, fam string, lo int) int {
 	ars := []int{}
 	for _, a := range genArities[fam] {
@@ -592,7 +610,13 @@ func pickArity(r *Rng, fam string, lo int) int {
 	if len(ars) == 0 {
 		return 0
 	}
-	n := ars[r.Intn(len(ars))]
+	// ARITY2: mostly round-robin per family (every member x arity is reached within a few draws, whatever the
+	// seed and however small the run); every third draw stays random
+	famCtr[fam]++
+	n := ars[(famCtr[fam]/2)%len(ars)]
+	if famCtr[fam]%3 == 0 {
+		n = ars[r.Intn(len(ars))]
+	}
 	hist[fmt.Sprintf("%s/%d", strings.TrimPrefix(fam, "future."), n)]++
 	return n
 }
@@ -718,9 +742,27 @@ func genKT(r *Rng) *Sx {
 func genHand(r *Rng, nsrc, ndef int) *Sx {
 	h := func() *Sx { return genH(r, nsrc, ndef) }
 	kx := func() *Sx { return L(A("kx"), I(NewID()), genKind(r, nsrc, ndef)) }
-	k := r.Intn(16)
+	// ARITY2: round-robin over the hand-written combinators (every one is reached in every run)
+	handCtr++
+	k := handCtr % 18
+	if handCtr%4 == 0 {
+		k = r.Intn(18)
+	}
 	hist["hand"]++
 	switch k {
+	case 15:
+		xs := []*Sx{A("traverseFunc"), genKF(r, nsrc, ndef)}
+		for i, n := 0, r.Intn(4); i < n; i++ {
+			xs = append(xs, I(r.Range(0, 6)))
+		}
+		hist["hand:traverseFunc"]++
+		return L(xs...)
+	case 16:
+		hist["hand:monoidFut"]++
+		return L(A("monoidFut"), genFN(r), h(), h())
+	case 17:
+		hist["hand:monoidFutEmpty"]++
+		return L(A("monoidFutEmpty"), I(r.Range(-3, 9)))
 	case 0:
 		return L(A("apx"), genX(r), genFN(r), h(), h())
 	case 1:
@@ -763,9 +805,12 @@ func genHand(r *Rng, nsrc, ndef int) *Sx {
 	case 12:
 		return L(A(Pick(r, "flatMapTraverseSeq", "flatMapTraverseSlice")), h(), genKF(r, nsrc, ndef))
 	case 13:
-		if r.Bool() {
+		sliceCtr++
+		if sliceCtr%2 == 0 {
+			hist["hand:mapSliceLift"]++
 			return L(A("mapSeqLift"), genX(r), L(A("slice"), h()), genKT(r))
 		}
+		hist["hand:mapSeqLift"]++
 		return L(A("mapSeqLift"), genX(r), h(), genKT(r))
 	case 14:
 		return L(A("func0"), genX(r), genFE(r))
@@ -828,6 +873,9 @@ func genOrderedScenario(r *Rng) *Sx {
 			}
 		case 5:
 			def = L(A("map2x"), genX(r), genFN(r), src(), src())
+			if r.Bool() { // ARITY2: monoid.Future(m).Combine: operand order under every completion order
+				def = L(A("monoidFut"), genFN(r), src(), src())
+			}
 		case 6:
 			def = L(A("apx"), genX(r), genFN(r), src(), src())
 		case 7:
@@ -1170,6 +1218,10 @@ func (c *evalCtx) famDef(s *Sx) (tv, bool) {
 			r = fp.Success[any](fp.Unit{})
 		}
 		return tv{ok: false, t: r}, true
+	case "monoidFut": // left operand first, whatever completes first
+		return bind(c.h(a[2]), func(x any) tv { return fmap(c.h(a[3]), func(y any) any { return fnV(a[1], []any{x, y}) }) }), true
+	case "monoidFutEmpty":
+		return det(fp.Success[any](a[1].Int())), true
 	case "apx", "map2x":
 		i := 3
 		return bind(c.h(a[i]), func(x any) tv { return fmap(c.h(a[i+1]), func(y any) any { return fnV(a[2], []any{x, y}) }) }), true
@@ -1200,7 +1252,7 @@ func (c *evalCtx) famDef(s *Sx) (tv, bool) {
 	case "composePure":
 		r, _, _ := ktV(a[2], a[1].Int())
 		return det(fp.Success[any](r)), true
-	case "traverseSlice":
+	case "traverseSlice", "traverseFunc":
 		acc := det(fp.Success[any]([]any{}))
 		for _, e := range a[2:] {
 			e := e
